@@ -1092,6 +1092,14 @@ func (e *Exec) finishFrame(fallthroughSt *State) (*State, []Term) {
 	}
 	for i := len(f.defers) - 1; i >= 0; i-- {
 		d := f.defers[i]
+		var before *State
+		var armed Term
+		if d.armed != nil {
+			if a, ok := m.Vars[d.armed]; ok && a.S != "true" {
+				armed = a
+				before = m.Clone()
+			}
+		}
 		if lit, ok := d.call.Fun.(*ast.FuncLit); ok {
 			saved := f.rets
 			f.rets = nil
@@ -1100,6 +1108,10 @@ func (e *Exec) finishFrame(fallthroughSt *State) (*State, []Term) {
 			f.rets = saved
 		} else {
 			e.evalCall(m, d.call)
+		}
+		if before != nil {
+			// the deferred call ran only on the paths that had executed its defer statement
+			m = e.Merge(e.withPC(m, armed), e.withPC(before, Not(armed)))
 		}
 		if m.Dead() {
 			return nil, nil
